@@ -1009,10 +1009,10 @@ def is_strictness_fulfilled(
                 or 'rse_omega' in args_in_statement
                 or 'rse_sigma' in args_in_statement
             ):
-                rse = results.relative_standard_errors
-                rse_theta = ArrayEvaluator(rse[rse.index.isin(get_thetas(model).names)])  # noqa
-                rse_omega = ArrayEvaluator(rse[rse.index.isin(get_omegas(model).names)])  # noqa
-                rse_sigma = ArrayEvaluator(rse[rse.index.isin(get_sigmas(model).names)])  # noqa
+                rses = results.relative_standard_errors
+                rse_theta = ArrayEvaluator(rses[rses.index.isin(get_thetas(model).names)])  # noqa
+                rse_omega = ArrayEvaluator(rses[rses.index.isin(get_omegas(model).names)])  # noqa
+                rse_sigma = ArrayEvaluator(rses[rses.index.isin(get_sigmas(model).names)])  # noqa
             if (
                 'final_zero_gradient_theta' in args_in_statement
                 or 'final_zero_gradient_omega' in args_in_statement
